@@ -185,6 +185,9 @@ class FnAnalysis:
                     s.add(("D", c))
                 else:
                     s.discard(("D", c))
+            dev = self._deferred_events(node.with_node)
+            if dev:
+                return self._apply_events(s, dev, record)
             return frozenset(s)
         if self.fn.is_contextmanager() and node.kind == "stmt" and node.ast is not None and any(
             isinstance(x, (ast.Yield, ast.YieldFrom)) for x in walk_stmt(node.ast)
@@ -193,7 +196,35 @@ class FnAnalysis:
             for f in list(s):
                 if f[0] == "S":
                     s.add(("D", f[1]))
-        for e in self._events(node):
+        return self._apply_events(s, self._events(node), record)
+
+    def _deferred_events(self, wnode):
+        """events of callbacks registered on a `with contextlib.ExitStack() as st:` block
+        (st.callback(f, *args) / st.callback(lambda: f(...))): they run when the block is left"""
+        evs = []
+        for item in wnode.items:
+            d = norm_text(item.context_expr)
+            if not (d.endswith("ExitStack()") and isinstance(item.optional_vars, ast.Name)):
+                continue
+            st = item.optional_vars.id
+            for b in wnode.body:
+                for n in walk_stmt(b):
+                    if isinstance(n, ast.Call) and isinstance(n.func, ast.Attribute) and n.func.attr == "callback" and isinstance(n.func.value, ast.Name) and n.func.value.id == st and n.args:
+                        a0 = n.args[0]
+                        if isinstance(a0, ast.Lambda) and isinstance(a0.body, ast.Call):
+                            call = a0.body
+                        else:
+                            call = ast.Call(func=a0, args=list(n.args[1:]), keywords=list(n.keywords))
+                            ast.copy_location(call, n)
+                            ast.fix_missing_locations(call)
+                        cells, cands, how = self.eff.call_writes(self.fn, call)
+                        for c in sorted(cells):
+                            vals = list(call.args) + [k.value for k in call.keywords]
+                            evs.append(("write", c, vals, call, False, cands))
+        return evs
+
+    def _apply_events(self, s, events, record):
+        for e in events:
             if e[0] == "kill":
                 for f in [f for f in s if f[0] == "S" and f[2] == e[1]]:
                     s.discard(f)
